@@ -213,6 +213,36 @@ def gen_sites(tag, files, only=None):
     return o
 
 
+def gen_translate(name, targets, types=None, consts=None, externs=None):
+    """Regenerate lean/Hy/Gen/Trans<name>.lean: Lean definitions TRANSLATED from the current Go
+    source of `targets` ("<file relative to /repo>:<[Recv.]Func>") by harness/gen/translate.go
+    (a small straight-line integer subset of Go; Go's wrap-around, truncated division and panics
+    explicit — lean/Hy/Base/GoInt.lean).  The owning Props file proves, for all inputs, that the
+    regenerated definitions equal the hand-written model functions.  A function that has left
+    the subset is omitted from the file (so the theorem about it stops building) and this hook
+    raises, which the check reports as a broken tie.
+      types   {"congestion.ByteCount": "int64"}     named integer types of other packages
+      consts  {"congestion.MinPacingDelay": "time.Duration"}   constants of other packages → parameters
+      externs {"quicvarint.Len": "uint64:int"}      functions treated as parameters (args:ret)"""
+    b = build_verifgen()
+    cmd = [b, "translate", REPO, "-name", name]
+    for k, v in sorted((types or {}).items()):
+        cmd += ["-type", "%s=%s" % (k, v)]
+    for k, v in sorted((consts or {}).items()):
+        cmd += ["-const", "%s=%s" % (k, v)]
+    for k, v in sorted((externs or {}).items()):
+        cmd += ["-extern", "%s=%s" % (k, v)]
+    p = subprocess.run(cmd + list(targets), stdout=subprocess.PIPE, stderr=subprocess.PIPE, text=True, errors="replace", timeout=120)
+    if p.returncode not in (0, 1) or "namespace Hy.Gen.Trans" not in p.stdout:
+        # nothing usable was produced: leave a file without definitions so that nothing stale is built against
+        write_gen_file("Trans" + name, "/- verifgen translate failed -/\nnamespace Hy.Gen.Trans%s\nend Hy.Gen.Trans%s\n" % (name, name))
+        raise RuntimeError("verifgen translate failed: " + (p.stderr or p.stdout)[-2000:])
+    write_gen_file("Trans" + name, p.stdout)
+    if p.returncode != 0:
+        raise RuntimeError("Go function(s) no longer inside the translatable subset: " + p.stderr.strip()[-2000:])
+    return p.stdout
+
+
 # ----------------------------------------------------------------- Lean: build, audit, recheck
 
 def lake_build(targets):
